@@ -63,6 +63,7 @@ FN_NAME = {1: "refine_hmmscan_results(neighbour_mode=True)", 2: "refine_hmmscan_
            13: "Record.create_regions (circular, origin-crossing first section, twin areas)"}
 FN_NAME[16] = FN_NAME[12]
 FN_NAME[20] = "hmm_detection.get_ruleset limited to rule names (order of the rules handed out)"
+FN_NAME[21] = "SecMetQualifier.add_domains over several calls (order of the stored domains)"
 
 # texts of the finding classes of this check.  All ten are REPAIRED in the code (known_findings.json: status fixed), so none
 # is tolerated: a difference between children inside a class is reported as a counterexample "(class X, not recorded as
@@ -512,7 +513,14 @@ def gen_selection(rng):
     return {"names": names, "taxon": rng.choice(["bacteria", "bacteria", "fungi"])}
 
 
-GENERATORS = {20: gen_selection, 1: gen_refine, 2: gen_refine, 3: gen_pipeline, 4: gen_formation, 5: gen_unique, 6: gen_strings, 7: gen_notes,
+def gen_domain_batches(rng):
+    """ two to four add_domains calls on one qualifier: names recur inside a call and between calls, a later call brings
+        several new names """
+    pool = rng.sample(DOMAINS + ["PF00109", "PF02801", "AMP-binding", "Condensation", "p11", "p3", "PP-binding", "KR"], rng.choice([4, 6, 9]))
+    return {"batches": [[rng.choice(pool) for _ in range(rng.choice([1, 2, 3, 4, 6]))] for _ in range(rng.choice([2, 2, 3, 4]))]}
+
+
+GENERATORS = {21: gen_domain_batches, 20: gen_selection, 1: gen_refine, 2: gen_refine, 3: gen_pipeline, 4: gen_formation, 5: gen_unique, 6: gen_strings, 7: gen_notes,
               8: gen_annotate, 9: gen_filter, 10: gen_terpene, 11: gen_terpene_e2e, 12: gen_crossing, 13: gen_regions}
 
 
@@ -1275,7 +1283,23 @@ def child_selection(_fn, args, _rng, _keep):
     return [([PROP, 20, len(every), len(observed)] + [ident[name] for name in observed], [len(handed)] + [ident[name] for name in handed])], {}
 
 
-CHILD = {20: child_selection, 1: child_refine, 2: child_refine, 3: child_pipeline, 4: child_formation, 5: child_unique, 6: child_strings,
+def child_domain_batches(_fn, args, _rng, _keep):
+    from antismash.common.secmet.qualifiers.secmet import SecMetQualifier
+    names = sorted({name for batch in args["batches"] for name in batch})
+    ident = {name: i for i, name in enumerate(names)}
+    qualifier = SecMetQualifier()
+    for k, batch in enumerate(args["batches"]):
+        qualifier.add_domains([SecMetQualifier.Domain(name, 1e-10, 50.0 + k, 10, f"tool{k}") for name in batch])
+    stored = [domain.name for domain in qualifier.domains]
+    ids = list(qualifier.domain_ids)
+    flat = [PROP, 21, len(args["batches"])]
+    for batch in args["batches"]:
+        flat += [len(batch)] + [ident[name] for name in batch]
+    extra = {} if stored == ids else {"error": f"domains {stored} and domain_ids {ids} list different orders"}
+    return [(flat, [len(stored)] + [ident[name] for name in stored])], extra
+
+
+CHILD = {21: child_domain_batches, 20: child_selection, 1: child_refine, 2: child_refine, 3: child_pipeline, 4: child_formation, 5: child_unique, 6: child_strings,
          7: child_notes, 8: child_annotate, 9: child_filter, 10: child_terpene, 11: child_terpene_e2e,
          12: child_crossing, 13: child_regions}
 
@@ -1346,8 +1370,8 @@ def run_children(cases, seeds, jobs=6):
 def plan(tier):
     if tier == "quick":
         return {1: 600, 2: 600, 3: 250, 4: 600, 5: 700, 6: 400, 7: 300, 8: 300, 9: 250, 10: 400, 11: 150, 12: 260, 13: 120,
-                20: 40}, [0, 1, 2, 3, 4, 5]
-    return {1: 6000, 2: 6000, 3: 1500, 4: 4500, 5: 4500, 6: 2000, 7: 1200, 8: 1200, 9: 1500, 10: 2500, 11: 600, 12: 1500, 13: 500, 20: 200}, list(range(0, 18))
+                20: 40, 21: 200}, [0, 1, 2, 3, 4, 5]
+    return {1: 6000, 2: 6000, 3: 1500, 4: 4500, 5: 4500, 6: 2000, 7: 1200, 8: 1200, 9: 1500, 10: 2500, 11: 600, 12: 1500, 13: 500, 20: 200, 21: 1500}, list(range(0, 18))
 
 
 # the fixed witnesses of the findings C17-K1..K3 (all three repaired in the code; regression corpus, run first, every time)
@@ -1563,6 +1587,8 @@ def nontrivial(case, flat):
         # two or more origin-crossing genes with a common profile
         crossing = [set(args["hits"].get(name, ())) for name, parts in args["genes"] if len(parts) > 1]
         return any(crossing[i] & crossing[j] for i in range(len(crossing)) for j in range(i))
+    if fn == 21:
+        return len(args["batches"]) >= 2 and len(set(args["batches"][-1]) - set(args["batches"][0])) >= 2
     if fn == 20:
         return len(set(args["names"])) >= 2
     if fn == 13:
